@@ -399,14 +399,13 @@ func (loc *Location) RemRule(ctx *Context, id string) (string, error) {
 	timer := NewTimer(ctx, "RemRule")
 	Inc(&loc.stats.TotalCalls, 1)
 	Inc(&loc.stats.RemRules, 1)
+	// The rule's 'disabled' flag is a property of the id, and the
+	// state removes an id's properties with the id, in the same
+	// step.  (There used to be a second step here that looked for
+	// the flag and removed it.  It could only find a flag that
+	// somebody had set after the removal, say for a rule added
+	// again under this id, and took that one.)
 	_, err := loc.state.Rem(ctx, id)
-	if err == nil {
-		var have bool
-		_, have, err = GetProp(ctx, loc.state, id, "disabled", false)
-		if have {
-			_, err = RemProp(ctx, loc.state, id, "disabled")
-		}
-	}
 	loc.stats.IncErrors(err)
 	Inc(&loc.stats.TotalTime, timer.Stop())
 	return id, err
